@@ -122,7 +122,12 @@ Note(k, v) ==
       [] v = 19 -> [title |-> "T" \o n, blocks |-> <<P("p", <<>>),
                                                        LB("QRef", 0, n \o "qr", <<L(a, "inline", n \o "qa")>>),
                                                        LB("IRef", 0, n \o "ir", <<L(b, "inline", n \o "ib")>>),
-                                                       LB("H", 2, n \o "h2", <<>>), P("tail", <<>>)>>]
+                                                       LB("H", 2, n \o "h2", <<>>), P("tail", <<>>),
+                                                       \* ... and under a heading that itself stands inside a block quote ("QR")
+                                                       LB("QH", 1, n \o "qh", <<>>), LB("QR", 0, n \o "qs", <<L(b, "inline", n \o "qb")>>)>>]
+      \* a note that ends with a code block (the closing fence is its last line: what that line belongs to depends on
+      \* whether the text ends with a line terminator)
+      [] v = 20 -> [title |-> "T" \o n, blocks |-> <<P("p", <<L(a, "inline", n \o "pa")>>), LB("H", 2, n \o "h2", <<>>), LB("Code", 0, n \o "lastcode", <<>>)>>]
       [] v = 9 -> [title |-> "T" \o n, blocks |-> <<LB("Ref", 0, n \o "m", <<L(Rel(MISSING, d), "inline", n \o "mm")>>),
                                                       P("x", <<X("https://example.com/" \o n, n \o "xx"), X("HTTPS://EXAMPLE.COM/" \o n, n \o "xy"), X("ftp://host/" \o n \o ".md", n \o "xz")>>),
                                                       P("w", <<L(a, "wiki", ""), L(b, "piped", n \o "pb")>>)>>]
@@ -151,7 +156,7 @@ Update(k, v) ==
     /\ steps' = Append(steps, [key |-> k, note |-> Note(k, v), new |-> k \notin DOMAIN docs])
     /\ UNCHANGED init
 
-GNext == (\E v1, v2, v3 \in 0..19 : Start(v1, v2, v3)) \/ (\E k \in {K1, K2, K3, K4, K5, K6}, v \in 0..19 : Update(k, v))
+GNext == (\E v1, v2, v3 \in 0..20 : Start(v1, v2, v3)) \/ (\E k \in {K1, K2, K3, K4, K5, K6}, v \in 0..20 : Update(k, v))
 GSpec == GInit /\ [][GNext]_vars
 
 Emit == Started => PrintT(<<"HIST", ToJson([init |-> init, steps |-> steps])>>)
